@@ -56,6 +56,9 @@ func copyBlocks(target any, binding Binding) error {
 }
 
 func copyBlock(v reflect.Value, block Block) error {
+	if k := v.Kind(); k != reflect.Struct {
+		return fmt.Errorf("block %s: expected struct to store it, have: %s", block.key(), k)
+	}
 	t := v.Type()
 	if st, bt := t.Name(), block.Type; st != "" && !unsnakeEq(st, bt) {
 		return fmt.Errorf("mismatch: struct type %s, block type %s", st, bt)
